@@ -107,6 +107,22 @@ func genC01(g *G) {
 		}
 		g.Tag("geo-" + ge.Ord())
 	}
+	// the same (start, length) read in the two byte orders back to back, in both sequences: a result must not depend on
+	// what was read before (state kept between calls, e.g. a memo keyed by the geometry alone)
+	for s0 := 0; s0 < 64; s0++ {
+		for l := 1; l <= 64; l++ {
+			if !FitsLE(s0, l) || !FitsBE(s0, l) {
+				continue
+			}
+			p := g.R.U64()
+			g.Emit("rdu LE %d %d %s", s0, l, dataHex(p))
+			g.Emit("rdu BE %d %d %s", s0, l, dataHex(p))
+			g.Emit("rds LE %d %d %s", s0, l, dataHex(p))
+			g.Emit("rds BE %d %d %s", s0, l, dataHex(p))
+			g.Emit("rdu LE %d %d %s", s0, l, dataHex(p))
+		}
+	}
+	g.Tag("interleaved-orders")
 	for i := 0; i < 256; i++ {
 		for _, p := range []uint64{0, ^uint64(0), g.R.U64(), 1 << uint(i%64), ^(uint64(1) << uint(i%64))} {
 			g.Emit("bit %d %s", i, dataHex(p))
@@ -220,6 +236,16 @@ func genC17(g *G) {
 		}
 	}
 	g.Hist["chk-domain"] = 2 * 9 * 256 * 255
+	// the two checks on the same arguments back to back (a result must not depend on the call before)
+	for _, fl := range []int{1, 4, 8} {
+		for s := 0; s < 72; s++ {
+			for l := 1; l <= 66; l++ {
+				g.Emit("chk LE %d %d %d", fl, s, l)
+				g.Emit("chk BE %d %d %d", fl, s, l)
+				g.Emit("chk LE %d %d %d", fl, s, l)
+			}
+		}
+	}
 	for b := 1; b <= 64; b++ {
 		m := maskN(b)
 		vals := []uint64{0, 1, m >> 1, (m >> 1) + 1, m, m + 1, ^uint64(0), g.R.U64(), g.R.U64() & m}
